@@ -27,7 +27,7 @@ import properties as P      # noqa: E402
 REPO = os.environ.get('VERIF_REPO', '/repo')
 SPECS = os.path.join(ROOT, 'specs')
 WORK = os.path.join(ROOT, 'work')
-EVID = os.path.join(ROOT, 'evidence')
+EVID = os.environ.get('VERIF_EVIDENCE_DIR') or os.path.join(ROOT, 'evidence')   # try_mutant.sh points this at work/ so runs on a changed tree never overwrite committed evidence
 KNOWN = os.path.join(ROOT, 'known_findings.txt')
 
 
